@@ -75,3 +75,11 @@ package model
 //@   call Errorf#3 assert [rejects-only-bad] d_set && !d && l_set && !l && h_set && !h
 //@   loop 1 invariant [good-rune] d_set ==> (d || (l_set && l) || (h_set && h))
 //@   ensures [non-empty] ret0 == nil ==> repo.Name != "" && repo.Description != ""
+
+// ---- generated-path detection (C20, C04): the reserved locations are exactly
+//      [./|/].datamon, .conflicts, .checkpoints and everything below them ------------------------
+//@ regex genFileRe covers [reserved-recognised] "^(\./|/)?\.(datamon|conflicts|checkpoints)(/.*)?$"
+//@ regex genFileRe within [only-reserved] "^(\./|/)?\.(datamon|conflicts|checkpoints)(/.*)?$"
+//@ regex genFileRe within [only-reserved-or-known] "^(\./|/)?\.(datamon|conflicts|checkpoints)(/.*)?$" except "^\.\.(conflicts|checkpoints)(/.*)?$"
+//@ regex isBundleFileIndexRe equals [file-list-name] "^bundle-files-[0-9]+\.yaml$"
+//@ regex metaRe equals [descriptor-name] "^\.datamon/.*\.yaml$"
